@@ -335,7 +335,8 @@ func checkProp(p *Prop, tier, onlyRun string, keepLogs, trace, validate bool) in
 			spec := gosym.ReplaySpec{RepoDir: repoDir, PkgDir: hp.Dir, PkgName: hp.Name, Entry: r.Cfg.Entry,
 				HarnessFiles: hs.files[hp.Dir], RTDir: filepath.Join(verifDir, "rt"), Tags: p.Tags}
 			dir := gosym.ReplayDir(filepath.Join(verifDir, "replays"), p.ID, r.Cfg.Name, v.Values)
-			if r.Cfg.Sched {
+			spec.Race = v.Ob.Kind == "race"
+			if r.Cfg.Sched && !spec.Race {
 				if err := gosym.PrepareSchedReplay(l, &spec, dir, r, v, p.InstrDirs); err != nil {
 					inconcl = append(inconcl, r.Cfg.Name+": cannot prepare schedule replay: "+err.Error())
 					continue
